@@ -4,6 +4,7 @@
     protocol.StreamID arithmetic), tied to /repo by the correspondence check of unit streamsmap. *)
 From Coq Require Import List ZArith Bool.
 From V Require Import Gen.Params StreamsMap.Model StreamsMap.ProofsIn StreamsMap.ProofsOut StreamsMap.ProofsTop.
+From V Require Import StreamsMap.AcceptWake StreamsMap.ProofsWake.
 Import ListNotations.
 Open Scope Z_scope.
 
@@ -218,3 +219,103 @@ Example C15_example_concurrent_accept :
   i_parked (fst r) = [].
 Proof. vm_compute. split; reflexivity. Qed.
 Print Assumptions C15_example_concurrent_accept.
+
+(** * Round 3 *)
+
+(** (b) FIFO for the four-map streamsMap, for every API history including ResetFor0RTT /
+    UseResetMaps: per stream type, served waiters are a subsequence of the arrivals. *)
+Theorem C15_fifo_streams_map : forall client mb mu ops s outs uni, 0 <= mb -> 0 <= mu -> Forall top_ok ops ->
+  trun (init_sm client mb mu) ops = (s, outs) ->
+  subseq (tserved uni ops outs) (tarrivals uni ops outs).
+Proof. exact sm_fifo. Qed.
+Print Assumptions C15_fifo_streams_map.
+
+(** What ResetFor0RTT does to blocked callers: none is carried over to the new maps (their queues
+    and sets of parked acceptors are empty); all of them, and those of earlier resets, are remembered
+    as callers of replaced maps ... *)
+Theorem C15_reset_fails_waiters : forall s s' r fr, tstep s OReset = (s', r, fr) ->
+  (forall w, In w (queue_ids (s_ob s) ++ o_dead (s_ob s) ++ queue_ids (s_ou s) ++ o_dead (s_ou s) ++ s_zomb s) ->
+             In w (s_zomb s')) /\
+  (forall a, In a (i_parked (s_ib s) ++ i_parked (s_iu s) ++ s_zacc s) -> In a (s_zacc s')) /\
+  queue_ids (s_ob s') = [] /\ queue_ids (s_ou s') = [] /\ i_parked (s_ib s') = [] /\ i_parked (s_iu s') = [] /\
+  s_reset s' = true.
+Proof. exact sm_reset_fails_waiters. Qed.
+Print Assumptions C15_reset_fails_waiters.
+
+(** ... and such a caller returns Err0RTTRejected when it wakes, its context's error if it is
+    cancelled first - never a stream (so it cannot disturb the FIFO order of the new maps). *)
+Theorem C15_reset_waiter_outcome : forall s uni w, In w (s_zomb s) ->
+  snd (fst (tstep s (OSyncWake uni w))) = RErr Err0RTT /\
+  snd (fst (tstep s (OSyncCancel uni w))) = RErr ErrCtx.
+Proof. exact sm_zombie_outcome. Qed.
+Print Assumptions C15_reset_waiter_outcome.
+
+Theorem C15_reset_acceptor_outcome : forall s uni a, In a (s_zacc s) ->
+  snd (fst (tstep s (OAcceptWake uni a))) = RErr Err0RTT /\
+  snd (fst (tstep s (OAcceptCancel uni a))) = RErr ErrCtx.
+Proof. exact sm_zombie_acceptor_outcome. Qed.
+Print Assumptions C15_reset_acceptor_outcome.
+
+(** No lost wake-up, OpenStreamSync: in every reachable state of an outgoing map (and of the
+    streamsMap) in which no wake-up is pending (no queued caller holds a token, nobody is still to be
+    told about CloseWithError), callers are blocked only if the map is open and at the peer's limit. *)
+Theorem C15_no_lost_wakeup_open : forall uni client m, oreach uni client m ->
+  out_quiescent m -> o_queue m <> [] -> o_closed m = None /\ o_max m < o_next m.
+Proof. exact out_no_lost_wakeup. Qed.
+Print Assumptions C15_no_lost_wakeup_open.
+
+Theorem C15_no_lost_wakeup_open_streams_map : forall client mb mu ops s outs uni,
+  0 <= mb -> 0 <= mu -> Forall top_ok ops ->
+  trun (init_sm client mb mu) ops = (s, outs) ->
+  let m := s_out s uni in
+  out_quiescent m -> o_queue m <> [] -> o_closed m = None /\ o_max m < o_next m.
+Proof. exact sm_no_lost_wakeup_open. Qed.
+Print Assumptions C15_no_lost_wakeup_open_streams_map.
+
+(** No lost wake-up, AcceptStream (fine-grained protocol model AcceptWake.v, repaired code: a caller
+    that takes a stream re-signals when the next one is already there): for every history of any
+    number of callers, in every quiescent state (all callers blocked in their select) somebody is
+    blocked only if no opened stream is waiting to be accepted. *)
+Theorem C15_no_lost_wakeup_accept : forall ops, let m := aw_run true ops in
+  quiescent m = true -> aw_callers m <> [] -> aw_avail m = 0.
+Proof. exact no_lost_wakeup_accept. Qed.
+Print Assumptions C15_no_lost_wakeup_accept.
+
+(** Regression witness (the code before fixes/C15-accept-lost-wakeup.patch, [resignal = false]):
+    caller 1 finds nothing; one frame opens two streams (one token); caller 2 drains the token and
+    takes the first stream; caller 1 reaches its select: blocked although a stream is waiting.
+    Replayed on the implementation by smAcceptLostWakeupProbe (monitor accept/lost-wakeup).
+    With the repair the same schedule ends with caller 1 holding the wake-up. *)
+Example C15_lost_wakeup_witness :
+  let ops := [ACall 1; ACheck 1; AOpen 2; ACall 2; ACheck 2; ASelect 1] in
+  (quiescent (aw_run false ops) = true /\ aw_callers (aw_run false ops) = [(1, PWaiting)] /\
+   aw_avail (aw_run false ops) = 1) /\
+  (aw_callers (aw_run true ops) = [(1, PWoken)] /\ aw_avail (aw_run true ops) = 1).
+Proof. vm_compute. repeat split; reflexivity. Qed.
+Print Assumptions C15_lost_wakeup_witness.
+
+(** RESET_STREAM_AT needs the peer's consent: if the streams map would give the extension to a new
+    stream, or some open outgoing stream has it switched on, then some transport parameters
+    applied earlier carried reset_stream_at (possibly the ones restored for 0-RTT). *)
+Theorem C15_reset_stream_at_needs_consent : forall client mb mu ops s outs,
+  trun (init_sm client mb mu) ops = (s, outs) -> rsa_used s -> existsb tp_enables ops = true.
+Proof. exact sm_rsa_needs_consent. Qed.
+Print Assumptions C15_reset_stream_at_needs_consent.
+
+(** Transport parameters without reset_stream_at switch the extension on for no open stream
+    (the repair of fixes/C15-reset-stream-at-without-consent.patch). *)
+Theorem C15_reset_stream_at_not_enabled_without_consent : forall s nb nu s' r fr,
+  tstep s (OTransportParams nb nu false) = (s', r, fr) -> s_rsa s' = false /\ s_rsaIDs s' = s_rsaIDs s.
+Proof. exact sm_tp_without_rsa. Qed.
+Print Assumptions C15_reset_stream_at_not_enabled_without_consent.
+
+(** Regression: the 0-RTT client of the finding (restored parameters, stream opened, real parameters,
+    none with reset_stream_at): no stream has the extension; with reset_stream_at in the real
+    parameters the stream opened during 0-RTT gets it. *)
+Example C15_reset_stream_at_regression :
+  s_rsaIDs (fst (trun (init_sm true 10 10)
+                      [OTransportParams 3 3 false; OOpen false; OOpen true; OTransportParams 3 3 false])) = [] /\
+  s_rsaIDs (fst (trun (init_sm true 10 10)
+                      [OTransportParams 3 3 false; OOpen false; OOpen true; OTransportParams 3 3 true])) = [0; 2].
+Proof. vm_compute. split; reflexivity. Qed.
+Print Assumptions C15_reset_stream_at_regression.
